@@ -54,7 +54,7 @@ def slice_def(u, name, tier):
         calls = []
         for t in ["Alpha", "Al1", "Mid"]:
             for e in ("export", "export_all", "export_all_to"):
-                for s in ("default", "plain", "dotslash/", "abs", "dotdot", "other"):
+                for s in ("default", "plain", "dotslash/", "abs", "dotdot", "other", "cd2", "cd2_plain"):
                     calls.append(u.call(e, t, s))
         f0, f = exportlib.free_alphabet(calls)
         return dict(calls=calls, follow0=f0, follow=f, maxlen=2 if q else 3, init="empty", strict=True, confl="C06")
